@@ -2,23 +2,23 @@ package main
 
 import (
 	"fmt"
+	"os"
 
 	"github.com/inspirer/textmapper/lalr"
 
 	"verif/internal/gramenum"
-	"verif/internal/tabinterp"
 )
 
 func main() {
-	g := &gramenum.Gram{T: 2, N: 1, Rules: []gramenum.Rule{{3, []int{1, 1}}, {3, []int{2, 2}}}}
-	inputs := []gramenum.Input{{3, true}}
-	tbl, err := lalr.Compile(g.ToLalr(inputs), lalr.Options{Optimize: true})
-	fmt.Println(err)
-	fmt.Printf("default: Action %v Lalr %v Goto %v FromTo %v\n", tbl.Action, tbl.Lalr, tbl.Goto, tbl.FromTo)
-	o := tbl.Optimized
-	fmt.Printf("opt: DefGoto %v Goto %v DefAct %v Action %v Base %v Table %v Check %v\n", o.DefGoto, o.Goto, o.DefAct, o.Action, o.Base, o.Table, o.Check)
-	m := &tabinterp.Machine{T: tbl, Terms: 3, Optimized: true}
-	fmt.Println(m.Run(0, []int{1, 2}))
-	m.Optimized = false
-	fmt.Println(m.Run(0, []int{1, 2}))
+	g := &gramenum.Gram{T: 2, N: 2, Rules: []gramenum.Rule{{4, nil}, {3, []int{4, 1}}, {4, []int{4, 1}}}}
+	inputs := []gramenum.Input{{3, true}, {3, false}}
+	for _, k := range []int{1, 2} {
+		tbl, err := lalr.Compile(g.ToLalr(inputs), lalr.Options{Lookahead: k, Debug: true})
+		fmt.Println("k=", k, "err=", err, "Action", tbl.Action, "Lalr", tbl.Lalr)
+		if len(os.Args) > 1 {
+			for i, d := range tbl.DebugInfo {
+				fmt.Printf("-- %d --\n%s\n", i, d)
+			}
+		}
+	}
 }
